@@ -26,7 +26,7 @@ from optsim.tape import Tape, derive_seed
 
 PROPERTY = 'C12'
 LEVEL = 'exploration'
-RULE = ('seeded histories (1..25 steps; thorough also sweeps all histories of length <= 2 over a 14-symbol alphabet) of '
+RULE = ('seeded histories (1..25 steps; thorough also sweeps all 2 954 histories of length <= 3 over a 14-symbol alphabet) of '
         'register / register_class / dataclass / unregister over {plain class, subclass, namedtuple subclass, fresh tuple '
         'subclass with instrumented metaclass, struct sequence, built-ins} x namespaces {global sentinel, a, b} x faults '
         '{non-class, bad entry type, empty / non-str namespace, warnings-as-errors, raising showwarning, raising metaclass '
@@ -75,6 +75,10 @@ def jobs(tier, seed, flavours):
             yield {'i': -1, 'seed': seed, 'sweep': [a]}
             for b in range(ALPHABET):
                 yield {'i': -1, 'seed': seed, 'sweep': [a, b]}
+        for a in range(ALPHABET):
+            for b in range(ALPHABET):
+                for c in range(ALPHABET):
+                    yield {'i': -1, 'seed': seed, 'sweep': [a, b, c]}
     i = 0
     while True:
         yield {'i': i, 'seed': seed}
